@@ -1,5 +1,5 @@
 CONSTANTS Kinds = {"k1", "k2"} Texts = {"t1", "t2"} Opts = {"o1", "o2"} Capacity = 2 MaxHist = 4
-DEV = {}
+DEV = {"KeyOmitsKind"}
 SPECIFICATION Spec
-INVARIANTS Transparent Bounded Emit
+INVARIANTS Transparent Bounded 
 CHECK_DEADLOCK FALSE
